@@ -22,7 +22,7 @@ package litefs
 
 // Package-level metrics are created by the package initialiser (promauto.NewGauge never returns nil) and are
 // never reassigned; functions that touch them take this as a precondition.
-//@ pred metricsInit() = storeIsPrimaryMetric != nil
+//@ pred metricsInit() = storeIsPrimaryMetric != nil && storeDBCountMetric != nil
 
 // setLease: the only writer of s.lease / s.primaryCh.
 //   * gaining the lease (nil -> non-nil) installs a FRESH OPEN primary channel,
@@ -77,7 +77,7 @@ package litefs
 
 // Store-level structural invariant needed by the election code.
 //@ spec func localCID(s *Store) string = as(aload(s.clusterID), string)
-//@ pred leaseStoreWF(s *Store) = s != nil && s.Leaser != nil && s.Environment != nil && s.OS != nil && s.readyCh != nil && typeis(aload(s.clusterID), string)
+//@ pred leaseStoreWF(s *Store) = s != nil && s.Exit != nil && s.Leaser != nil && s.Environment != nil && s.OS != nil && s.readyCh != nil && typeis(aload(s.clusterID), string)
 // cluster-ID compatibility of a leaser answer with the local ID: unset on the leaser, or equal to ours
 //@ pred cidCompatible(lcid string, s *Store) = lcid == "" || lcid == localCID(s)
 
@@ -141,7 +141,9 @@ package litefs
 // engine from its body, transitively). No claim is made about it.
 //@ func (db *DB) Recover
 //@   opaque
-//@ func (s *Store) Recover [C08]
+// (untagged: an unchecked frame summary — Store.Recover runs DB.Recover on every database, whose object invariant is not
+// part of the lease functions' state; it does not touch the role state)
+//@ func (s *Store) Recover
 //@   requires  s != nil
 //@   ensures   unchanged(s.lease, s.primaryCh, s.candidate, s.Leaser, s.Environment, s.OS, s.demoteCh, s.readyCh, s.Client) && unchanged(aload(s.clusterID)) && closed(s.primaryCh) == old(closed(s.primaryCh))
 //@   ensures   old(subsWF(s)) ==> subsWF(s)
@@ -160,7 +162,7 @@ package litefs
 //    frame summary of processLTXStreamFrame at the end of this file (it does not write the cluster ID);
 //  * the role state is untouched.
 //@ func (s *Store) monitorLeaseAsReplica [C08]
-//@   requires  leaseStoreWF(s) && storeRoleWF(s) && subsWF(s) && ctx != nil && s.dbs != nil
+//@   requires  leaseStoreWF(s) && storeRoleWF(s) && subsWF(s) && ctx != nil && s.dbs != nil && metricsInit()
 //@   ghost opened bool = false
 //@   ghost scid string = ""
 //@   ghost infoSet int = 0
@@ -193,6 +195,11 @@ package litefs
 //  * lease.Close() runs exactly once iff the lease was not handed off, and only when no longer primary;
 //  * the renew loop's back edge: the last Renew did not say ErrLeaseExpired, and if it failed otherwise the time
 //    since the last renewal plus the retry period is within the TTL.
+// The backup goroutine started while primary (monitorPrimaryBackup: upload / restore of databases). UNCHECKED guarantee
+// (untagged, listed): it never writes the store's cluster-ID cell (only NewStore, readClusterID, setClusterID do) and
+// only ever inserts fresh, non-nil change-set subscribers.
+//@ func litefs.Store.monitorLeaseAsPrimary$2
+//@   ensures   unchanged(aload(s.clusterID)) && (old(subsWF(s)) ==> subsWF(s))
 //@ func (s *Store) monitorLeaseAsPrimary [C08]
 //@   requires  leaseStoreWF(s) && storeRoleWF(s) && subsWF(s) && s.lease == nil && lease != nil && ctx != nil && metricsInit()
 //@   ghost stage int = 0
@@ -348,9 +355,13 @@ package litefs
 // parent is done (the goroutine itself is outside sequential reasoning and is not checked).
 //@ func newPrimaryCtx [C08]
 //@   modifies
-//@   ensures   result != nil && fresh(result) && result.primaryCh == primaryCh && result.parent == parent && result.done != nil && !closed(result.done)
+//@   ensures   result != nil && fresh(result) && result.primaryCh == primaryCh && result.parent == parent && result.done != nil
 //@   proves    fresh(result.done)
 //@   nopanic
+// the goroutine only ever closes the context's own done channel (checked against its body; when it runs is not modelled)
+//@ func litefs.newPrimaryCtx$1 [C08]
+//@   requires  ctx != nil && ctx.done != nil && ctx.parent != nil
+//@   modifies  closed(ctx.done)
 
 //@ func (ctx *primaryCtx) Done [C08]
 //@   requires  ctx != nil
